@@ -78,7 +78,9 @@ def model_verdict(facts, cat, raw):
     elif raw.get("strVal") is not None:
         name = raw["strVal"]
     else:
-        name = raw.get("reprTail", "")
+        full = raw.get("reprFull", "")
+        rule = facts.get("duck_repr_rule", "unknown")
+        name = full.rsplit(".", 1)[-1] if rule == "lastComponent" else full.partition(".")[2] if rule == "afterFirstDot" else "?"
     return True if spec == "ANY" else name in spec
 
 
